@@ -778,7 +778,15 @@ func c14NoNUL(s string) string { return strings.ReplaceAll(s, "\x00", "\x01") }
 
 func c14CLIArg(r *rand.Rand, a c14Alpha, k int) string {
 	word := func() string { return vlib.Word(r, nil) }
-	switch k % 9 {
+	switch k % 10 {
+	case 9: // full-width and other compatibility forms of ASCII characters (an input method left in the wrong mode), among them the look-alikes of the metacharacters
+		fw := []string{"\uff5c", "\uff06", "\uff1b", "\uff04", "\uff1c", "\uff1e", "\u3000", "\uff47\uff49\uff54", "\uff0d\uff52", "\ufe31", "\u2223", "\ufe64", "\ufe65", "\ufe50", "\ufe54", "\ufe69", "\ufe60"}
+		w := word() + " " + word() + " " + word()
+		for i, n := 0, 1+r.Intn(2); i < n; i++ {
+			at := r.Intn(len(w) + 1)
+			w = w[:at] + c14Pick(r, fw) + w[at:]
+		}
+		return w
 	case 8: // a query wrapped in a pair of quote characters (as a shell that does not strip them passes it), blanks inside the quotes
 		qc := c14Pick(r, []string{"'", "\"", "`"})
 		inner := c14Pick(r, []string{"", " ", "  ", "\t"}) + c14Pick(r, []string{"", word(), word() + " " + word(), word() + "  " + word()}) + c14Pick(r, []string{"", " ", "  "})
@@ -872,6 +880,9 @@ func engineValidateCLI(ctx *Ctx) {
 		if i%3 == 1 {
 			arg = "common " + vlib.Word(r, nil) // an acceptable query with hundreds of matches
 		}
+		if i%6 == 2 {
+			arg = c14CLIArg(r, a, 4) // around the 1000-byte bound (and handed over word by word below)
+		}
 		format := []string{"", "", "list", "table", "json", "json"}[r.Intn(6)]
 		limitArg := []string{"", "", "0", "1", "7", "100", "101", "5000", "-3", "abc", "2147483648"}[r.Intn(11)]
 		if i%3 == 1 {
@@ -893,7 +904,17 @@ func engineValidateCLI(ctx *Ctx) {
 		if limitArg != "" {
 			args = append(args, "--limit="+limitArg)
 		}
-		args = append(args, "--", arg)
+		if parts := strings.Split(arg, " "); len(parts) > 1 && i%3 == 2 {
+			// the query typed without quotes: the shell hands its words over one by one, the program joins them with single blanks
+			args = append(args, "--")
+			args = append(args, parts...)
+			ctx.R.Path("cli-queries-handed-over-word-by-word", 1)
+			if len(arg) > 1000 {
+				ctx.R.Path("cli-queries-over-1000-bytes-handed-over-word-by-word", 1)
+			}
+		} else {
+			args = append(args, "--", arg)
+		}
 		cs := c14MkCase("cli", i, arg, true)
 		ctx.R.Begin(cs)
 		ctx.R.Eval(1)
